@@ -363,13 +363,7 @@ func c19Kinds(c *Ctx, r *Result) {
 					}
 				}
 			})
-			takesValue := false
-			for _, p := range fn.Params {
-				if strings.HasSuffix(p.Type().String(), "reflect.Value") {
-					takesValue = true
-				}
-			}
-			if nAssert >= 5 && takesValue {
+			if nAssert >= 5 && fn != argConv {
 				site := c.FuncKey(fn) + "#result-conversion"
 				r.Instance("R19b-res", site, c.Pos(fn.Pos()), "finding", "result conversion by type identity", true)
 				r.Report(Finding{Rule: "R19b-res", Site: site, Pos: c.Pos(fn.Pos()),
